@@ -60,10 +60,11 @@ func genLargeCfg(t *rapid.T, kind string) PCfg {
 	case 2:
 		c.ShrinkSize = eb / 2
 	default:
-		c.ShrinkSize = eb - 1
+		// ShrinkSize close to BufferSize is covered by the small cases;
+		// here a refill of one byte per 2 MiB hash table shift (or per
+		// suffix sort of the whole buffer) is legal but takes for ever.
+		c.ShrinkSize = eb * 3 / 4
 		if sa {
-			// a refill of one byte per suffix sort of the whole buffer
-			// is legal but takes for ever
 			c.ShrinkSize = eb / 4
 		}
 	}
